@@ -34,7 +34,7 @@ META = dict(
     level_text='every placement of a concurrent shutdown() at the environment call-outs of the control connection\'s connect sequence, and every order of session shutdown / node-up event / cluster shutdown within the bounds, is explored (solver-forked flags) through the real methods; per path the obligation is that every connection opened is closed, that nothing new is opened or scheduled after shutdown, and that shutdown is idempotent and ordered',
     level_note='stand-in Cluster/Session objects expose exactly what the real methods read; pre-emption at environment call-outs (blocking factory, connection requests, metadata refresh) and, in job control-race, a Cluster.shutdown() by another thread at any acquire/release of the two locks of the control connection (with every host of the plan refusing as one of the cases, so that the retry-scheduling branch is reached); not inside lock-free regions of driver code; pools themselves are C12',
     technique='symbolic execution (sx, solver-forked scheduler flags) of the real cassandra.cluster.ControlConnection._reconnect/_try_connect/_set_new_connection/shutdown, Session.shutdown/submit/add_or_renew_pool and Cluster.shutdown over scripted connections and recorders',
-    bounds=dict(quick='control connection: 1..2 hosts in the plan (first may fail to connect), shutdown possible at each of 5 call-outs of the connect sequence or not at all, control-connection or cluster shutdown; session: shutdown before/after a node-up event, 2 hosts, shutdown at a sync point of the pool-creation task, two overlapping pool-creation tasks for one host; cluster: 0..2 sessions, shutdown twice; connect() on a set-up cluster with shutdown() at a sync point of connect or afterwards',
+    bounds=dict(quick='control connection: 1..2 hosts in the plan (first may fail to connect), shutdown possible at each of 5 call-outs of the connect sequence or not at all, control-connection or cluster shutdown; session: shutdown before/after a node-up event, 2 hosts, shutdown at a sync point of the pool-creation task, two overlapping pool-creation tasks for one host, a node-down event (remove_pool) with shutdown() at its log call; cluster: 0..2 sessions, shutdown twice; connect() on a set-up cluster with shutdown() at a sync point of connect or afterwards',
                 thorough='same, plus control-race2: two Cluster.shutdown() calls by other threads at sync points (concurrent shutdowns)'),
     assumptions=['another thread calls shutdown() only while the connecting thread is inside an environment call (factory, request round trip, metadata refresh)'],
     stubs=['connection_factory: scripted control connections (register_watchers / wait_for_responses / close recorded)', 'Cluster and Session stand-ins; executor runs submitted tasks inline or records them'],
@@ -45,7 +45,7 @@ META = dict(
 def encoded_functions():
     C = cc.ControlConnection
     return [C._reconnect, C._reconnect_internal, C._try_connect, C._set_new_connection, C.shutdown, C.reconnect, C._submit,
-            cc.Session.shutdown, cc.Session.submit, cc.Session.add_or_renew_pool, cc.Session.update_created_pools, cc.Cluster.shutdown, cc.Cluster.connect, cc.Cluster._new_session]
+            cc.Session.shutdown, cc.Session.submit, cc.Session.add_or_renew_pool, cc.Session.remove_pool, cc.Session.update_created_pools, cc.Cluster.shutdown, cc.Cluster.connect, cc.Cluster._new_session]
 
 
 # ---- (a) control connection ------------------------------------------------------------------------
@@ -227,7 +227,7 @@ def h_session(V):
     cc.HostConnection = _Pool
     try:
         order = V.pick('order', ['event-then-shutdown', 'shutdown-then-event', 'shutdown-while-task-queued', 'shutdown-at-a-sync-point-of-the-task',
-                                 'two-pool-tasks-for-one-host'])
+                                 'two-pool-tasks-for-one-host', 'node-down-with-shutdown-at-a-call-out'])
         def run_tasks():
             while tasks:
                 fn, a, k = tasks.pop(0)
@@ -252,6 +252,28 @@ def h_session(V):
             s.add_or_renew_pool(hosts[0], False)     # queued on the executor
             s.shutdown()
             run_tasks()
+        elif order == 'node-down-with-shutdown-at-a-call-out':
+            # the node goes down (Session.on_down -> remove_pool) while another thread calls shutdown() at one of
+            # remove_pool's calls into the environment (its log call)
+            s.add_or_renew_pool(hosts[0], False)
+            run_tasks()
+            ncall = [0]
+
+            class _Log(object):
+                def __getattr__(self, name):
+                    def call(*a, **k):
+                        ncall[0] += 1
+                        if not s.is_shutdown and V.flag('shutdown_at_log_call_%d' % ncall[0]):
+                            s.shutdown()
+                    return call
+            real_log = cc.log
+            cc.log = _Log()
+            try:
+                s.remove_pool(hosts[0])
+            finally:
+                cc.log = real_log
+            run_tasks()
+            s.shutdown()
         elif order == 'two-pool-tasks-for-one-host':
             # two pool-creation tasks for the same host are queued (a node-up event and update_created_pools after another
             # host came up); the executor has more than one thread: the second task runs at a sync point of the first
